@@ -34,6 +34,7 @@ var veKinds = []string{"import", "tag", "merge", "convert"}
 
 type veGate struct {
 	kind    string
+	stage   string // "begin": the job body has not run yet; "gate": the body is done, the completion is not posted yet
 	release chan struct{}
 }
 
@@ -46,6 +47,9 @@ type veEngine struct {
 	parked  []*veGate
 	auto    bool // gates do not block (free running)
 	changed chan struct{}
+	// holdNext[kind]: the next job of that kind is also held before its body runs (at begin), so that API
+	// calls and deliveries can be placed between the snapshot a job takes when it is started and its reads
+	holdNext map[string]bool
 
 	mgr    *Manager
 	dirs   veDirs
@@ -71,6 +75,15 @@ func veInstallHooks() {
 			e.mu.Lock()
 			e.begun[kind]++
 			e.kindsSeen[kind] = true
+			if !e.auto && e.holdNext[kind] {
+				delete(e.holdNext, kind)
+				g := &veGate{kind: kind, stage: "begin", release: make(chan struct{})}
+				e.parked = append(e.parked, g)
+				e.mu.Unlock()
+				e.notify()
+				<-g.release
+				return
+			}
 			e.mu.Unlock()
 			e.notify()
 		}
@@ -87,7 +100,7 @@ func veInstallHooks() {
 			e.notify()
 			return
 		}
-		g := &veGate{kind: kind, release: make(chan struct{})}
+		g := &veGate{kind: kind, stage: "gate", release: make(chan struct{})}
 		e.parked = append(e.parked, g)
 		if len(e.parked) > e.maxParked {
 			e.maxParked = len(e.parked)
@@ -162,7 +175,7 @@ func init() {
 
 // veStart creates a manager on the directories and makes the engine current.
 func veStart(d veDirs, auto bool) (*veEngine, error) {
-	e := &veEngine{begun: map[string]int{}, gated: map[string]int{}, ended: map[string]int{}, changed: make(chan struct{}, 1),
+	e := &veEngine{begun: map[string]int{}, gated: map[string]int{}, ended: map[string]int{}, changed: make(chan struct{}, 1), holdNext: map[string]bool{},
 		auto: auto, dirs: d, kindsSeen: map[string]bool{}}
 	veCurrentMu.Lock()
 	veCurrent = e
@@ -299,7 +312,7 @@ func (e *veEngine) deliver(kind string) (bool, error) {
 	e.mu.Lock()
 	var g *veGate
 	for i, p := range e.parked {
-		if p.kind == kind {
+		if p.kind == kind && p.stage == "gate" {
 			g = p
 			e.parked = append(e.parked[:i], e.parked[i+1:]...)
 			break
@@ -333,14 +346,49 @@ func (e *veEngine) deliver(kind string) (bool, error) {
 	return true, e.sync()
 }
 
+// parkedKinds lists the jobs whose completion can be delivered (parked at their gate).
 func (e *veEngine) parkedKinds() []string {
 	e.mu.Lock()
 	defer e.mu.Unlock()
 	var ks []string
 	for _, g := range e.parked {
-		ks = append(ks, g.kind)
+		if g.stage == "gate" {
+			ks = append(ks, g.kind)
+		}
 	}
 	return ks
+}
+
+// heldKinds lists the jobs held before their body ran.
+func (e *veEngine) heldKinds() []string {
+	e.mu.Lock()
+	defer e.mu.Unlock()
+	var ks []string
+	for _, g := range e.parked {
+		if g.stage == "begin" {
+			ks = append(ks, g.kind)
+		}
+	}
+	return ks
+}
+
+// start lets a job held at begin run its body; it then parks at its gate.
+func (e *veEngine) start(kind string) (bool, error) {
+	e.mu.Lock()
+	var g *veGate
+	for i, p := range e.parked {
+		if p.kind == kind && p.stage == "begin" {
+			g = p
+			e.parked = append(e.parked[:i], e.parked[i+1:]...)
+			break
+		}
+	}
+	e.mu.Unlock()
+	if g == nil {
+		return false, nil
+	}
+	close(g.release)
+	return true, e.sync()
 }
 
 // settle delivers parked jobs in the order chosen by pick until nothing is
@@ -348,6 +396,12 @@ func (e *veEngine) parkedKinds() []string {
 func (e *veEngine) settle(bound int, pick func(kinds []string) int) (int, error) {
 	n := 0
 	for {
+		if hk := e.heldKinds(); len(hk) != 0 {
+			if _, err := e.start(hk[0]); err != nil {
+				return n, err
+			}
+			continue
+		}
 		ks := e.parkedKinds()
 		if len(ks) == 0 {
 			f, err := e.flags()
